@@ -959,6 +959,16 @@ def build(scn: Scn, rt: Runtime, cls_name=None, picklable=False):
                 if EVENTS[e] not in ns:
                     ns[EVENTS[e]] = Event() if e % 2 else Event(name=f"Display {e}")
             tl = arrow(ti, tr, event=[ns[EVENTS[e]] for e in tr.events], **kw)
+        elif scn.decl_style == "eventobj2" and not scn.alias_sub and all(len(t.events) == 1 and not t.any for t in scn.trans):
+            # one `Event` object in both roles: `go = Event(a.to(b), name=...)` wraps the first transition of the
+            # event, the others are declared with `event=go`
+            from statemachine import Event
+            e = tr.events[0]
+            if EVENTS[e] in ns:
+                tl = arrow(ti, tr, event=ns[EVENTS[e]], **kw)
+            else:
+                tl = arrow(ti, tr, **kw)
+                ns[EVENTS[e]] = Event(tl, name=f"Ev {e}")
         elif scn.decl_style == "spaced":
             tl = arrow(ti, tr, event=" ".join(EVENTS[e] for e in tr.events), **kw)
         else:
